@@ -272,9 +272,8 @@ def selftest(prop, engine, tier, seed0, n, pool):
         raise HarnessError(f"determinism self-test child failed: {err[-500:]}")
     dc = {int(k2): v for k2, v in json.loads(out.strip().splitlines()[-1]).items()}
     bad = [s for s in seeds if da[s] != db[s]] + [s for s in dc if dc[s] != da[s]]
-    if bad:
-        raise HarnessError(f"nondeterministic runs for seeds {bad[:5]}")
-    return {"seeds": n, "twice_in_other_process": n, "other_hashseed_fresh_interpreter": len(dc)}
+    return {"seeds": n, "twice_in_other_process": n, "other_hashseed_fresh_interpreter": len(dc),
+            "mismatching_seeds": bad[:5]}
 
 
 def _batch(prop, engine, tier, pool, seeds_iter, fault_free, agg, deadline, max_runs):
@@ -466,6 +465,16 @@ def _main(prop, engine, tier, seed0, runs, budget, selftest_seeds, t0, a, techni
         "wall_s": round(wall, 2),
         "violations": sum(1 for f in found if not f["known"]),
     }
+    if st.get("mismatching_seeds"):
+        # the same seed gave different event logs.  If the search also found a violation the code
+        # under test is itself nondeterministic (salted with an address, a clock, a hash seed) and
+        # the violation stands; otherwise the harness cannot be trusted.
+        if exit_code == 1:
+            print(f"  note: determinism self-test failed for seeds {st['mismatching_seeds']} - "
+                  "the code under test behaves differently from run to run")
+        else:
+            print(f"HARNESS-ERROR nondeterministic runs for seeds {st['mismatching_seeds']}")
+            exit_code = 2
     stuck = [p for p in engine.REQUIRED_PROBES.get(prop, []) if not stats.get(p)]
     if stuck and total >= 1000:
         print(f"HARNESS-ERROR probes stuck at zero: {stuck}")
